@@ -66,6 +66,14 @@ type Sched struct {
 	ExpectPanic func(task string, v interface{}) bool
 	curPoint    string
 	OnBlock     func(point string)
+	atomic      int // >0: the running task's yields are no-ops (Atomic)
+}
+
+// Atomic runs f on the calling task without giving any other task a turn at its yields.
+func (s *Sched) Atomic(f func()) {
+	s.atomic++
+	defer func() { s.atomic-- }()
+	f()
 }
 
 func NewSched(t *Tape, keepTrace bool) *Sched {
@@ -157,7 +165,7 @@ func trimStack(b []byte) string {
 func (s *Sched) Running() bool { return s != nil && s.running }
 
 func (s *Sched) Yield(point string) {
-	if s == nil || !s.running || s.cur == nil || s.aborted {
+	if s == nil || !s.running || s.cur == nil || s.aborted || s.atomic > 0 {
 		return
 	}
 	t := s.cur
